@@ -272,7 +272,7 @@ def observe_server(ch_bytes, settings, func_name, end_line):
             return None
 
         def local(frame, event, arg):
-            if event == 'line' and frame.f_lineno == end_line:
+            if event == 'line' and frame.f_lineno >= end_line:     # any statement after the region
                 reached[0] = True
             return local
         return local
@@ -340,7 +340,7 @@ def ch_case(seed):
         code, cls, exc = c08_fuzz.with_watchdog(observe_server, ch_bytes, st, S['fn'], S['end'])
     except c08_fuzz.HangTimeout as e:
         sys.settrace(None)
-        fn, line = c08_fuzz.innermost_tlslite_frame(e)
+        fn, line = c08_fuzz.hang_frame(e)
         out['crash'] = ('hang:%s:%s' % (fn, c08_fuzz._norm(line)),
                         'does not return within %d s (spinning in %s: `%s`)' % (c08_fuzz.HANG_SECONDS, fn, line))
         out['kind'] = 'hang'
@@ -527,7 +527,7 @@ def observe_client(gen_sh, rng, func_name, end_line, start_line=None):
         captured['settings'] = frame.f_locals.get('settings')
 
         def local(frame, event, arg):
-            if event == 'line' and frame.f_lineno == end_line:
+            if event == 'line' and frame.f_lineno >= end_line:     # any statement after the region
                 reached[0] = True
             if event == 'line' and frame.f_lineno == start_line:
                 captured['entered'] = True
@@ -585,12 +585,12 @@ def sh_case(seed):
     from tlslite.constants import CipherSuite, TLS_1_3_HRR
     S = _sh_state()
     rng = random.Random(seed)
-    out = dict(label='?', hex='', lit=None, tie=None, crash=None, kind=None, pre=False)
+    out = dict(label='?', hex='', lit=None, tie=None, crash=None, kind=None, pre=False, seed=seed)
     try:
         r = c08_fuzz.with_watchdog(observe_client, gen_server_hello, rng, S['fn'], S['end'], S['start'])
     except c08_fuzz.HangTimeout as e:
         sys.settrace(None)
-        fn, line = c08_fuzz.innermost_tlslite_frame(e)
+        fn, line = c08_fuzz.hang_frame(e)
         out['crash'] = ('hang:%s:%s' % (fn, c08_fuzz._norm(line)),
                         'client does not return within %d s (spinning in %s: `%s`)' % (c08_fuzz.HANG_SECONDS, fn, line))
         return out
@@ -653,7 +653,7 @@ def run_stage_sh(ctx, quick, model_ok, pool=None):
     for o in outs:
         tie = tie or o['tie']
         if o['crash']:
-            crashes.append((o['label'], o.get('code'), o.get('cls'), o['hex'], None, o['crash'][0], o['crash'][1]))
+            crashes.append((o['label'], o.get('code'), o.get('cls'), o['hex'], o['seed'], o['crash'][0], o['crash'][1]))
         if o['pre']:
             ctx.count('serverhello-pre-region', 1, [tuple(o['cls'][:2])])
         if o['lit'] is None:
